@@ -173,6 +173,21 @@ func c11Receivers(quick bool) []c11Recv {
 			}
 		}
 	}
+	// encapsulation entries that are parts of one slice the caller keeps
+	for mode := 0; mode < 4; mode++ {
+		mode := mode
+		out = append(out, c11Recv{fmt.Sprintf("AND/encap-parts/mode%d", mode), func() any {
+			chars := []string{"<", ">", "|"}
+			s := stackage.And().SetEncap(chars[:1], chars[1:2]).Push("a", nil, stackage.Cond("k", stackage.Eq, "v").SetEncap(chars[2:]))
+			if mode&1 != 0 {
+				s.SetMutex()
+			}
+			if mode&2 != 0 {
+				s.SetReadOnly(true)
+			}
+			return s
+		}})
+	}
 	// closures that are scheduling points (see schedUserPoint): under the controlled scheduler other
 	// threads run while one caller is inside user code in the middle of a query
 	for _, k := range []string{"AND", "LIST"} {
